@@ -179,8 +179,22 @@ def build_unit(tmpl_path, repo_root, canary=False, verif_root=None, findings=Fal
     def emit_rest(spec, rel_t, ln):
         """`#rest <file>`: every top-level const / static / fn / macro-free helper of <file> that no #item extracted.
         Helpers added to the file later are picked up here, without contract (callers then see no postcondition)."""
+        container = None
+        if "|" in spec:
+            spec, container = [x.strip() for x in spec.split("|", 1)]
         src = source(spec)
         done = emitted.get(spec, set())
+        if container:
+            # members of a trait / impl that no #item names (helpers added later): emitted without contract
+            try:
+                cont = src.find(container)
+            except AnchorLost as e:
+                raise ToolError(f"TOOL: {e}")
+            for it in src.children(cont):
+                if it.kind != "fn" or it.start in done:
+                    continue
+                emit_item("item", f"{spec} | {container} / fn {it.name}", [], rel_t, ln)
+            return
         for it in src.top_items():
             if it.kind not in ("const", "static", "fn"):
                 continue
@@ -206,8 +220,7 @@ def build_unit(tmpl_path, repo_root, canary=False, verif_root=None, findings=Fal
         except AnchorLost as e:
             raise ToolError(f"TOOL: {e}")
         name = path
-        if " / " not in path:
-            emitted.setdefault(file_rel, set()).add(it.start)
+        emitted.setdefault(file_rel, set()).add(it.start)
         # parse directives
         directives, props, rules, cur = [], (), [], None
         for (l, ln) in block:
